@@ -144,8 +144,9 @@ impl C12 {
             docs.push(pool.generated(&Family::Rich, k));
         }
         docs.push(pool.generated(&Family::TwoLeaf, 0));
-        docs.push(pool.generated(&Family::DeepTree, 0));
-        docs.push(pool.generated(&Family::DeepTree, 1));
+        for k in 0..4 {
+            docs.push(pool.generated(&Family::DeepTree, k));
+        }
         docs.push(pool.generated(&Family::CyclicParents, 0));
         docs.push(pool.generated(&Family::CyclicParents, 1));
         for k in 0..pool.corpus_len() {
